@@ -223,8 +223,12 @@ func (spec *Spec) ParsePatterns(ctx context.Context) error {
 // Action-like sources include Actions, Boot, Toob, and Guards.
 func (spec *Spec) Compile(ctx context.Context, interpreters Interpreters, force bool) error {
 
-	if err := spec.ParsePatterns(ctx); err != nil {
-		return err
+	if !spec.compiled {
+		// Patterns are parsed when the spec is first compiled;
+		// a compiled spec holds patterns, not pattern texts.
+		if err := spec.ParsePatterns(ctx); err != nil {
+			return err
+		}
 	}
 
 	if spec.BootSource != nil && (force || spec.Boot == nil) {
